@@ -15,7 +15,8 @@ def main():
                       'undirected n=5 with lengths {1,2} (quick tier: random slices of all of these), random and structured graphs n=5..10 '
                       '(chains with chords, two components, sinks/sources), weights k/8 in (0,1] for log; on each graph all routines of the '
                       'property are run; non-trivial = distinct graph with a multi-hop shortest path or an unreachable pair')
-    ck.assumptions += ['inputs have an empty diagonal and positive lengths (property quantifier); float dtype',
+    ck.assumptions += ['every watchdog hit is counted per routine (coverage.timeouts); a routine timing out on more than 20 % of its calls is reported as a break',
+                       'inputs have an empty diagonal and positive lengths (property quantifier); float dtype',
                        "'log' transform: compared with the oracle by tolerance 1e-9 only (no model correspondence)",
                        'charpath/efficiency values compared with the exact rational of the model by tolerance 1e-9',
                        'rout_efficiency: only GErout and Erout (global part) are covered; local efficiencies are out of scope']
@@ -28,6 +29,7 @@ def main():
         cases = dc.gen_dist_cases(ck.rs, ck.tier)
     results = pmap(dc.run_case, cases)
     dc.absorb(ck, cases, results, FUNCS)
+    dc.timeout_rates(ck)
     if ok:
         dc.drive(ck, cases, results, 'dist')
     ck.finish()
